@@ -45,6 +45,32 @@ CHECKS.update({
             "Coq proof (per-thread projection, induction over histories) + real-thread history execution vs extracted model", "§3 C19"),
 })
 
+PROVED = "Coq proof (model = spec for all inputs, all profiles, all modes) + extracted-model correspondence + extracted-spec oracle"
+CHECKS.update({
+    "C02": ("proof", "unbounded theorems: * and checked_mul (short-cuts, exact branch, rounded branch on the narrow and on the 256-bit path) and the "
+            "integer-operand products are accepted by the specification for all well-formed operands, modes and profiles; the 256-bit kernel "
+            "contract is itself a theorem (C16)", PROVED, "§3 C02"),
+    "C03": ("proof", "unbounded theorems: / and checked_div = exact quotient rounded once to 18 digits and normalised, in all three scaling branches "
+            "(incl. 256-bit fall-back and the sticky-bit branch), zero-divisor and overflow signals, integer operands on either side", PROVED, "§3 C03"),
+    "C04": ("proof", "unbounded theorems: mul_rounded, div_rounded (all n of the u8 range for Decimal/Decimal; n <= 18 for the integer bodies, n > 18 "
+            "is known finding K1 with a proved witness) and quantize (all operand combinations) round the exact result once per mode; sticky-bit lemma "
+            "for the repaired divisor-scaled branch", PROVED, "§3 C04"),
+    "C10": ("proof", "unbounded theorems: % and checked_rem return the truncated remainder of the aligned coefficients (incl. the digit-by-digit "
+            "fall-back loop, by induction), failure only where permitted; integer operands; uniqueness of the truncated remainder", PROVED, "§3 C10"),
+    "C16": ("proof", "unbounded theorems: 128x128 product, one-word and two-word 256-bit division (normalisation, quotient-digit correction loop with "
+            "abstract word base, no add-back needed), msb = log2, the two signed floor kernels for every sign combination incl. exact division, "
+            "rounded wrappers", "Coq proof (Knuth D digit step over an abstract base, instantiated at 2^64) + extracted-model correspondence + oracle", "§3 C16"),
+    "C17": ("proof", "theorems: every separately written integer-operand body equals / agrees with the Decimal/Decimal body on Decimal::from(i) "
+            "(+ - / % quantize: equal; *: same value or the stated one-shortcut exception; div_rounded: equal for n <= 18, K1 otherwise; comparisons: "
+            "both the value order); the by-reference / op-assign forwarders are not expressible in Gallina: exhaustive enumeration of all trait "
+            "implementations on the implementation (partial, DESIGN §3 C17)",
+            "Coq proof (form agreement) + enumeration of all forwarding impls in the harness + model correspondence", "§3 C17"),
+    "C20": ("proof", "theorems: models of + - % comparisons conversions do not depend on the profile at all (every overflow explicit after the fix: "
+            "commits); round, unary operations, rounding and 256-bit kernels equal profile-free functions; * / *_rounded quantize accepted in every "
+            "profile; opt-level and packed layout are outside the model: differential builds (quick: dev + release; thorough: 16 configurations) (partial)",
+            "Coq proof (profile-quantified theorems) + differential builds of the harness compared with each other and with the model", "§3 C20"),
+})
+
 NOT_YET = {}
 
 def main():
